@@ -33,3 +33,6 @@ CLAIMS = {
                      "witnessed key of the previous epoch's network map and audit results only from a witnessed Inner Ring member.",
                 note=NOTE, technique=TECH),
 }
+
+for _p in PROPS.values():
+    _p.setdefault("cover_files", ['contracts/reputation/', 'contracts/audit/', 'contracts/neofsid/', 'contracts/container/', 'contracts/netmap/', 'contracts/neofs/'])
